@@ -135,7 +135,7 @@ def explore(body, start_bb, carriers, stop_at=None, track_ret=True, limit=6000, 
         bb, car, rv, fk = work.pop()
         if bb in avoid:
             continue
-        key = (bb, tuple(sorted((l, c.key()) for l, c in car.items())), rv, fk)
+        key = (bb, tuple(sorted((str(l), c.key()) for l, c in car.items())), rv, fk)
         if key in seen:
             continue
         seen.add(key)
@@ -160,6 +160,8 @@ def explore(body, start_bb, carriers, stop_at=None, track_ret=True, limit=6000, 
                         del car[sp.local]
                 elif sp.proj == ("*",) and sp.local in car and car[sp.local].kind == "ref":
                     new = car[sp.local].val
+                elif len(sp.proj) == 1 and (sp.local, sp.proj[0]) in car:
+                    new = car[(sp.local, sp.proj[0])]      # a field of a tuple built from carriers
             elif r.kind == "use" and r.ops[0].kind == "const" and r.ops[0].ty == "bool":
                 v = r.ops[0].info.get("v")
                 if v is not None:
@@ -192,6 +194,14 @@ def explore(body, start_bb, carriers, stop_at=None, track_ret=True, limit=6000, 
                     v = car[a.place.local].val == bool(b_.info["v"])
                     new = B(v if r.op == "Eq" else not v)
             if not dst.proj:
+                for k in [k for k in car if isinstance(k, tuple) and k[0] == dst.local]:
+                    del car[k]
+                if r.kind == "agg" and r.agg[0] == "tuple":
+                    for i, o in enumerate(r.ops):
+                        if o.kind in ("copy", "move") and not o.place.proj and o.place.local in car:
+                            car[(dst.local, ".%d" % i)] = car[o.place.local]
+                        elif o.kind == "const" and o.ty == "bool" and o.info.get("v") is not None:
+                            car[(dst.local, ".%d" % i)] = B(bool(o.info["v"]))
                 if new is not None:
                     car[dst.local] = new
                 else:
@@ -209,6 +219,8 @@ def explore(body, start_bb, carriers, stop_at=None, track_ret=True, limit=6000, 
             c = None
             if d.kind in ("copy", "move") and not d.place.proj:
                 c = car.get(d.place.local)
+            elif d.kind in ("copy", "move") and len(d.place.proj) == 1:
+                c = car.get((d.place.local, d.place.proj[0]))
             if c is not None and c.kind == "bool":
                 want = 1 if c.val else 0
                 nxt = [tgt for v, tgt in t.arms if v == want]
